@@ -120,6 +120,7 @@ def load(file: _FileLike) -> tb.Tensor:
     loaded_tensor = tb.tensor(loaded["data"])
 
     if "grad" in loaded:
-        loaded_tensor.backward(loaded["grad"])
+        # (not via `backward`, which does nothing while graph-tracking is suspended)
+        loaded_tensor._grad = np.asarray(loaded["grad"])
 
     return loaded_tensor
